@@ -47,6 +47,9 @@ func menu() []cmdlib.CE {
 			cmdlib.Splitter(s, cmdlib.Leg{Service: s, Weight: 50}, cmdlib.Leg{Service: "d", Weight: 50}),
 			cmdlib.Router(s, cmdlib.Route{PathPrefix: "/p", Service: o[0]}, cmdlib.Route{PathPrefix: "/q", Service: o[1]}),
 			cmdlib.Resolver(s, cmdlib.ResolverOpt{FailoverTargets: []string{"peer:cluster-02", o[0]}}),
+			// a failover section that applies to one subset only, and a targets-form failover that names a subset of another service
+			cmdlib.Resolver(s, cmdlib.ResolverOpt{Subsets: []string{"v1", "v2"}, DefaultSubset: "v1", Failover: o[0], FailoverKey: "v1"}),
+			cmdlib.Resolver(s, cmdlib.ResolverOpt{FailoverTargets: []string{o[0] + "/v2"}}),
 		}
 		for _, e := range ext {
 			extended[e.Label] = true
@@ -266,6 +269,9 @@ func runCase(w *guard.W, m []cmdlib.CE, tc tcase) {
 					cur = "error:" + err.Error()
 					w.Add("compile_errors", 1)
 				} else {
+					if e := failoverRule(ch, set); e != "" {
+						w.Violate("C15:compiled-failover-differs-from-the-resolver-entry:direct", fmt.Sprintf("chain of %q (override protocol %q): %s\nentries: %v", svc, op, e, labels), replay)
+					}
 					if e := closure(ch); e != "" {
 						w.Violate("C15:compiled-graph-not-closed:direct", fmt.Sprintf("chain of %q (override protocol %q) compiled without error but %s\nentries: %v", svc, op, e, labels), replay)
 					}
@@ -354,6 +360,9 @@ func checkChains(w *guard.W, wd *world.World, after string, order []string) stri
 			sb.WriteString(svc + ":error\n")
 			continue
 		}
+		if e := failoverRule(ch, ents); e != "" && w != nil {
+			w.Violate("C15:compiled-failover-differs-from-the-resolver-entry:store", fmt.Sprintf("after %s the chain of %q: %s\norder: %v", after, svc, e, order), map[string]any{"ops": wd.Hist})
+		}
 		if e := closure(ch); e != "" && w != nil {
 			w.Violate("C15:compiled-graph-not-closed:store", fmt.Sprintf("after %s the chain of %q compiled but %s\norder: %v", after, svc, e, order), map[string]any{"ops": wd.Hist})
 		}
@@ -414,4 +423,79 @@ func Run(c *ev.Ctx) {
 	sort.Strings(ml)
 	c.Sample(map[string]any{"menu": ml, "example_set": label(len(cs) / 2)})
 	c.Assume("non-termination is detected by a 25 s no-progress watchdog on worker subprocesses with a 6 GiB address-space limit (a compile normally takes microseconds)")
+}
+
+// failoverRule: for every resolver node, the failover section of the target service's resolver entry that applies to
+// the node's subset (the section keyed by that subset, else "*") has to show up in the compiled node: (a) if it names
+// any target other than the node's own, the node carries failover targets; (b) a targets-form entry naming subset S of
+// service X (X without a redirect) yields a failover target of X with subset S.
+func failoverRule(ch *structs.CompiledDiscoveryChain, set *configentry.DiscoveryChainSet) string {
+	if ch == nil || set == nil {
+		return ""
+	}
+	for id, n := range ch.Nodes {
+		if !n.IsResolver() || n.Resolver == nil {
+			continue
+		}
+		tgt, ok := ch.Targets[n.Resolver.Target]
+		if !ok || tgt.Peer != "" || tgt.Datacenter != "dc1" {
+			continue
+		}
+		ent := set.Resolvers[structs.NewServiceID(tgt.Service, nil)]
+		if ent == nil || len(ent.Failover) == 0 {
+			continue
+		}
+		fo, has := ent.Failover[tgt.ServiceSubset]
+		if !has {
+			fo, has = ent.Failover["*"]
+		}
+		if !has {
+			continue
+		}
+		type want struct{ svc, subset string }
+		var wants []want
+		other := false
+		if len(fo.Targets) > 0 {
+			for _, t := range fo.Targets {
+				sv := t.Service
+				if sv == "" {
+					sv = tgt.Service
+				}
+				if t.Peer != "" || t.Datacenter != "" || sv != tgt.Service || (t.ServiceSubset != "" && t.ServiceSubset != tgt.ServiceSubset) {
+					other = true
+				}
+				if t.Peer == "" && t.ServiceSubset != "" {
+					wants = append(wants, want{sv, t.ServiceSubset})
+				}
+			}
+		} else {
+			sv := fo.Service
+			if sv == "" {
+				sv = tgt.Service
+			}
+			if sv != tgt.Service || (fo.ServiceSubset != "" && fo.ServiceSubset != tgt.ServiceSubset) || len(fo.Datacenters) > 0 {
+				other = true
+			}
+		}
+		if other && (n.Resolver.Failover == nil || len(n.Resolver.Failover.Targets) == 0) {
+			return fmt.Sprintf("resolver node %q (service %q subset %q) carries no failover although the resolver entry of %q has a failover section for it", id, tgt.Service, tgt.ServiceSubset, tgt.Service)
+		}
+		for _, wt := range wants {
+			if r := set.Resolvers[structs.NewServiceID(wt.svc, nil)]; r != nil && r.Redirect != nil {
+				continue
+			}
+			found := false
+			if n.Resolver.Failover != nil {
+				for _, ft := range n.Resolver.Failover.Targets {
+					if t2, ok := ch.Targets[ft]; ok && t2.Service == wt.svc && t2.ServiceSubset == wt.subset {
+						found = true
+					}
+				}
+			}
+			if !found {
+				return fmt.Sprintf("resolver node %q: the failover target %s/%s named by the resolver entry of %q is not among the compiled failover targets", id, wt.svc, wt.subset, tgt.Service)
+			}
+		}
+	}
+	return ""
 }
